@@ -50,7 +50,7 @@ def make_case(seed, shard_index, i, kind, opts=None):
     elif kind == "tag2":
         res = None
         while res is None:
-            res = gtag.gen_two_hap(rng, t)
+            res = gtag.gen_two_hap(rng, t, unprefixed=rng.random() < 0.5)
         inp, pt, design = res
         case["input"] = inp
         case["pretext"] = pt
